@@ -16,7 +16,7 @@ when every wait has returned.
 from hypothesis import strategies as st
 from gen.common import sched_line, simple_topology, stat
 
-RULE = ("case = topology + monitor program (waiters x rounds, signallers with a "
+RULE = ("variant timed: see gen/c19.py (waiters with deadlines + clock + signals; non-trivial = a waiter timed out while another stayed queued); otherwise: case = topology + monitor program (waiters x rounds, signallers with a "
         "signal/broadcast pattern, optional tasklet callers that must be rejected) + schedule; "
         "non-trivial = some signal/broadcast was issued while >= 2 registered waiters were "
         "un-credited, or within 80 scheduling points of a waiter's registration (racing with "
@@ -27,6 +27,13 @@ FAR = 1000000000  # ms
 
 @st.composite
 def cases(draw, ctx):
+    if ctx.get("variant") == "timed":
+        # timed and untimed waiters mixed on one condition variable, deadlines expiring
+        # while others stay queued (the phase-structured / racing programs of gen/c19.py):
+        # "broadcast wakes all current waiters" and "no signal is lost" must survive the
+        # removal of timed-out entries from the waiter queue
+        from gen import c19
+        return draw(st.one_of(c19.phased(ctx), c19.racing(ctx))) + "note c05-timed\n"
     topo, npools, nxs = draw(simple_topology(max_xs=3))
     lines = [draw(sched_line(ctx))] + topo
     ncond = draw(st.sampled_from([1, 1, 2]))
@@ -91,12 +98,15 @@ def render(case, ctx):
 
 
 def judge(text, res, ctx):
+    if "note c05-timed" in text:
+        from gen import c19
+        return c19.judge(text, res, ctx)
     return None
 
 
 def classify(text, res, ctx):
-    out = []
-    for k in ("signal_with_2_waiters", "signal_racing_enqueue", "signal_no_waiter",
+    out = ["timed_mix"] if "note c05-timed" in text else []
+    for k in ("cond_timedout", "signal_with_2_waiters", "signal_racing_enqueue", "signal_no_waiter",
               "broadcasts", "tasklet_rejected"):
         if stat(res, k):
             out.append(k)
@@ -108,11 +118,14 @@ def classify(text, res, ctx):
 
 
 def nontrivial(text, res, ctx):
+    if "note c05-timed" in text:
+        from gen import c19
+        return c19.nontrivial(text, res, ctx)
     return stat(res, "signal_with_2_waiters") >= 1 or stat(res, "signal_racing_enqueue") >= 1
 
 
 PLAN = {
-    "quick": [("coarse", 10, 220), ("san", 4, 80), ("native", 2, 120)],
+    "quick": [("coarse", 8, 220), ("san", 4, 80), ("native", 2, 120), ("coarse", 3, 300, "timed")],
     "thorough": [("coarse", 6, 5000), ("fine", 6, 3000), ("san", 2, 1500), ("nopool", 1, 1000),
-                 ("native", 1, 2500)],
+                 ("native", 1, 2500), ("coarse", 3, 4000, "timed"), ("fine", 2, 2000, "timed")],
 }
